@@ -237,13 +237,131 @@ impl Check for C09Large {
     }
 }
 
+/// The group key is read from the input, not from the printed row: two selections that may both
+/// be absent, a key member that is not selected, optionally --unique. Rows that print as {} stay
+/// in their group; --unique is decided over the whole stream before grouping, so equal rows
+/// under different keys leave only the first.
+#[derive(Clone, Debug, Serialize, Deserialize)]
+pub struct Case09K {
+    /// (a, b, k): indices into the value / key pools, 0 = absent
+    pub recs: Vec<(u8, u8, u8)>,
+    pub unique: bool,
+    pub style: u8,
+}
+const K_VALS: [&str; 6] = ["", "1", "2", "\"x\"", "null", "[1]"];
+const K_KEYS: [&str; 9] = ["", "\"x\"", "\"y\"", "\"\"", "\"\u{e9}\"", "7", "null", "true", "\"z z\""];
+
+pub struct C09Key;
+impl Check for C09Key {
+    type Case = Case09K;
+    fn name(&self) -> &'static str {
+        "C09.unselected_key"
+    }
+    fn cases(&self, tier: Tier) -> u64 {
+        tier.pick(16_000, 300_000)
+    }
+    fn strategy(&self, _t: Tier) -> BoxedStrategy<Case09K> {
+        (proptest::collection::vec((0u8..6, 0u8..6, 0u8..9), 0..24), any::<bool>(), 0u8..3).prop_map(|(recs, unique, style)| Case09K { recs, unique, style }).boxed()
+    }
+    fn check(&self, c: &Case09K) -> CaseResult {
+        let mut input = String::new();
+        for (a, b, k) in &c.recs {
+            let mut m: Vec<String> = Vec::new();
+            if *a > 0 {
+                m.push(format!("\"a\":{}", K_VALS[*a as usize]));
+            }
+            if *k > 0 {
+                m.push(format!("\"k\":{}", K_KEYS[*k as usize]));
+            }
+            if *b > 0 {
+                m.push(format!("\"b\":{}", K_VALS[*b as usize]));
+            }
+            input.push_str(&format!("{{{}}}\n", m.join(",")));
+        }
+        // the documented result, computed from the records: --unique keeps the first of equal
+        // (a, b) pairs over the whole stream (the pool values have one spelling each), then the
+        // survivors are filed under their string key in first-seen order
+        let mut seen: Vec<(u8, u8)> = Vec::new();
+        let mut keys: Vec<String> = Vec::new();
+        let mut groups: Vec<Vec<RVal>> = Vec::new();
+        let (mut dropped, mut empty_rows, mut dup_other_key) = (0, 0, 0);
+        let mut first_key_of: Vec<((u8, u8), u8)> = Vec::new();
+        for (a, b, k) in &c.recs {
+            if c.unique {
+                if seen.contains(&(*a, *b)) {
+                    if first_key_of.iter().any(|(p, k0)| *p == (*a, *b) && k0 != k) {
+                        dup_other_key += 1;
+                    }
+                    continue;
+                }
+                seen.push((*a, *b));
+                first_key_of.push(((*a, *b), *k));
+            }
+            let key = match parse_one(K_KEYS[*k as usize].as_bytes()) {
+                Ok(RVal::Str(s)) if *k > 0 => s,
+                _ => {
+                    dropped += 1;
+                    continue;
+                }
+            };
+            let mut row: Vec<(String, RVal)> = Vec::new();
+            if *a > 0 {
+                row.push(("a".into(), parse_one(K_VALS[*a as usize].as_bytes()).unwrap()));
+            }
+            if *b > 0 {
+                row.push(("b".into(), parse_one(K_VALS[*b as usize].as_bytes()).unwrap()));
+            }
+            if row.is_empty() {
+                empty_rows += 1;
+            }
+            match keys.iter().position(|x| *x == key) {
+                Some(p) => groups[p].push(RVal::Obj(row)),
+                None => {
+                    keys.push(key);
+                    groups.push(vec![RVal::Obj(row)]);
+                }
+            }
+        }
+        let model = RVal::Obj(keys.into_iter().zip(groups.into_iter().map(RVal::Arr)).collect());
+        let mut args: Vec<String> = vec!["--select=.a=a".into(), "--select=.b=b".into(), "--group-by=.k".into()];
+        if c.unique {
+            args.push("--unique".into());
+        }
+        args.push(format!("--style={}", ["one-line", "consise", "pretty"][c.style as usize % 3]));
+        let out = run(&args, input.as_bytes());
+        if !out.res.is_ok() {
+            return CaseResult::Fail(format!("run failed: {} (args {:?})", out.res.short(), args));
+        }
+        let got = match parse_rows(&out.stdout) {
+            Ok(r) => r,
+            Err(e) => return CaseResult::Fail(format!("output: {} in {}", e, esc_trunc(&out.stdout, 300))),
+        };
+        if got.len() != 1 {
+            return CaseResult::Fail(format!("{} rows printed instead of exactly one collection: {}", got.len(), esc_trunc(&out.stdout, 300)));
+        }
+        if !same_value(&model, &got[0]) {
+            return CaseResult::Fail(format!("the collection is not the documented grouping of the surviving rows by the unselected key: expected {} got {} (args {:?}, input {})", trunc(&model.to_json(), 300), trunc(&got[0].to_json(), 300), args, esc_trunc(input.as_bytes(), 300)));
+        }
+        CaseResult::Pass(
+            Info::new(c.recs.len() >= 3 && (empty_rows > 0 || dup_other_key > 0 || dropped > 0))
+                .class_if(empty_rows > 0, "row_without_any_selected_value_in_a_group")
+                .class_if(dup_other_key > 0, "duplicate_row_under_another_key")
+                .class_if(dropped > 0, "row_dropped_for_its_key")
+                .class_if(c.unique, "unique")
+                .obs(json!({"records": c.recs.len(), "stdout": esc_trunc(&out.stdout, 160)})),
+        )
+    }
+}
+
 pub fn run_all(ctx: &mut Ctx) {
     ctx.rule = "0..40 records whose group key ranges over strings (incl. \"\", non-ASCII, escaped spellings, numeric-looking), numbers, null, true, [], {} and absent x upstream split/filter/select/unique/sort/skip/take x json (3 styles) or text output; oracle: exactly one output row, equal to the documented grouping (first-seen string keys, arrival order, non-string/absent dropped) of the rows the same run prints without --group-by/--merge. non-trivial (group-by) = >= 2 distinct string keys, a repeated key and a dropped row; (merge) = >= 2 rows behind at least one upstream stage; empty inputs are generated explicitly (class empty_input / no_row_survives). C09.large: 100..6000 rows (70000 thorough) derived from a seed with 3..5000 distinct keys, rows whose key is absent / a number / null / a list, keys drawn independently or in runs of consecutive equal keys (lengths 1, 2, 3, 511..513, 1023..1025, random), three styles; oracle: the documented grouping computed by the harness from the input itself (first-seen key order, arrival order inside each list, one collection); non-trivial = >= 1000 rows".into();
     ctx.assumptions = vec!["the ungrouped run of the same pipeline defines 'the surviving rows' (metamorphic); the key is read from the printed row's g member".into()];
     C09Group.run(ctx);
     C09Large.run(ctx);
+    ctx.rule.push_str(". C09.unselected_key: 0..23 records with two selections that may both be absent and a group key member that is not selected (strings incl. \"\" and non-ASCII, a number, null, true, absent), optionally --unique, three styles; oracle: the documented grouping computed from the records (--unique over the whole stream first, rows that print as {} stay in their group); non-trivial = a row without any selected value, a duplicate row under another key, or a row dropped for its key");
+    C09Key.run(ctx);
 }
 
 pub fn checks() -> Vec<Box<dyn DynCheck>> {
-    vec![Box::new(C09Group), Box::new(C09Large)]
+    vec![Box::new(C09Group), Box::new(C09Large), Box::new(C09Key)]
 }
